@@ -58,6 +58,7 @@ Step(e) ==
     [] e.a = "WaitClosed"  -> WaitClosed(e.x, e.id)
     [] e.a = "CloseC"      -> CloseC(e.x, e.id)
     [] e.a = "CloseS"      -> CloseS(e.x, e.id)
+    [] e.a = "Build"       -> Build(e.x, e.id, e.pur, e.bf)
     [] e.a = "Ack"         -> Ack
     [] OTHER -> FALSE
 
